@@ -50,39 +50,130 @@ fn try_apply<F: FnOnce(&mut Scenario)>(cx: &mut Ctx, cur: &mut Scenario, f: F) -
     }
 }
 
-fn ddmin_bytes(cx: &mut Ctx, cur: &mut Scenario) {
-    let DocSpec::Bytes { bytes } = &cur.doc else {
-        return;
-    };
-    let mut data = bytes.0.clone();
-    let mut chunk = (data.len() / 2).max(1);
-    while chunk >= 1 && !cx.out_of_time() {
-        let mut i = 0;
-        let mut progress = false;
-        while i < data.len() && !cx.out_of_time() {
-            let end = (i + chunk).min(data.len());
-            let mut cand_data = data.clone();
-            cand_data.drain(i..end);
-            let mut cand = cur.clone();
-            cand.doc = DocSpec::Bytes {
-                bytes: Blob(cand_data.clone()),
+/// After removing `removed` bytes at offset `at` from the document of
+/// `variant`, shift the absolute offsets of every read plan over that
+/// document and shrink the read steps that covered the removed range, so that
+/// chunk boundaries stay at the same places of the remaining text.
+fn adjust_plans(s: &mut Scenario, variant: usize, at: usize, removed: usize) {
+    let nvar = s.num_variants();
+    for t in s.threads.iter_mut() {
+        let mut curv = 0usize;
+        for op in t.ops.iter_mut() {
+            if let Op::Use { variant: v } = op {
+                curv = (*v as usize) % nvar;
+                continue;
+            }
+            if curv != variant {
+                continue;
+            }
+            let Some(plan) = op.plan_mut() else { continue };
+            let shift = |o: usize| -> usize {
+                if o <= at {
+                    o
+                } else if o >= at + removed {
+                    o - removed
+                } else {
+                    at
+                }
             };
-            if cx.fails(&cand) {
-                data = cand_data;
-                *cur = cand;
-                progress = true;
-            } else {
-                i = end;
+            if let Some(c) = plan.cut_at.as_mut() {
+                *c = shift(*c);
+            }
+            if let Some((e, _)) = plan.err_at.as_mut() {
+                *e = shift(*e);
+            }
+            let mut pos = 0usize;
+            let mut i = 0;
+            while i < plan.steps.len() {
+                match plan.steps[i] {
+                    ReadStep::Data(n) | ReadStep::Scribble(n) => {
+                        let (lo, hi) = (pos, pos + n as usize);
+                        let ov = hi.min(at + removed).saturating_sub(lo.max(at));
+                        pos = hi;
+                        if ov > 0 {
+                            let left = n as usize - ov;
+                            if left == 0 {
+                                plan.steps.remove(i);
+                                continue;
+                            }
+                            plan.steps[i] = match plan.steps[i] {
+                                ReadStep::Scribble(_) => ReadStep::Scribble(left as u32),
+                                _ => ReadStep::Data(left as u32),
+                            };
+                        }
+                    }
+                    ReadStep::Eintr => {}
+                    // how much a Full read delivers depends on the caller's
+                    // buffer: boundaries after it cannot be tracked
+                    ReadStep::Full => break,
+                }
+                i += 1;
             }
         }
-        if chunk == 1 && !progress {
-            break;
+    }
+}
+
+fn variant_bytes(s: &Scenario, v: usize) -> Option<Vec<u8>> {
+    match s.variant_doc(v) {
+        DocSpec::Bytes { bytes } => {
+            if v > 0 && s.variants[v - 1].doc.is_none() {
+                None // shares the base document
+            } else {
+                Some(bytes.0.clone())
+            }
         }
-        if !progress || chunk > data.len() {
-            chunk /= 2;
-        }
-        if data.is_empty() {
-            break;
+        _ => None,
+    }
+}
+
+fn set_variant_bytes(s: &mut Scenario, v: usize, data: Vec<u8>) {
+    let d = DocSpec::Bytes { bytes: Blob(data) };
+    if v == 0 {
+        s.doc = d;
+    } else {
+        s.variants[v - 1].doc = Some(d);
+    }
+}
+
+fn ddmin_bytes(cx: &mut Ctx, cur: &mut Scenario) {
+    for v in 0..cur.num_variants() {
+        let Some(mut data) = variant_bytes(cur, v) else { continue };
+        let mut chunk = (data.len() / 2).max(1);
+        while chunk >= 1 && !cx.out_of_time() {
+            let mut i = 0;
+            let mut progress = false;
+            while i < data.len() && !cx.out_of_time() {
+                let end = (i + chunk).min(data.len());
+                let mut cand_data = data.clone();
+                cand_data.drain(i..end);
+                let mut cand = cur.clone();
+                set_variant_bytes(&mut cand, v, cand_data.clone());
+                // the variants that share the base document read it too
+                adjust_plans(&mut cand, v, i, end - i);
+                if v == 0 {
+                    for k in 1..cand.num_variants() {
+                        if cand.variants[k - 1].doc.is_none() {
+                            adjust_plans(&mut cand, k, i, end - i);
+                        }
+                    }
+                }
+                if cx.fails(&cand) {
+                    data = cand_data;
+                    *cur = cand;
+                    progress = true;
+                } else {
+                    i = end;
+                }
+            }
+            if chunk == 1 && !progress {
+                break;
+            }
+            if !progress || chunk > data.len() {
+                chunk /= 2;
+            }
+            if data.is_empty() {
+                break;
+            }
         }
     }
 }
